@@ -247,7 +247,13 @@ func checkGroupWrite(toks []int, limit int64, dir string, st *searchStats, out s
 		}
 	}()
 	open := func() (*consensus.BaseWAL, bool) {
-		wal, err := consensus.NewWAL(path, auto.GroupHeadSizeLimit(limit), auto.GroupCheckDuration(time.Hour))
+		// after EVERY underlying Group.Write of the encoder: what the two tickers do (flush, the group's
+		// own head-size check with the configured limit)
+		wal, err := consensus.VerifC15NewWALHooked(path, func(g *auto.Group, n int) {
+			if g.FlushAndSync() == nil {
+				g.VerifC15CheckHeadSizeLimit()
+			}
+		}, auto.GroupHeadSizeLimit(limit), auto.GroupCheckDuration(time.Hour))
 		if err != nil {
 			out("harness", "NewWAL: "+err.Error())
 			return nil, false
@@ -265,7 +271,6 @@ func checkGroupWrite(toks []int, limit int64, dir string, st *searchStats, out s
 		return
 	}
 	recs := []consensus.TimedWALMessage{{Time: tClock, Msg: consensus.EndHeightMessage{Height: 0}}}
-	wal.Group().VerifC15CheckHeadSizeLimit()
 	for k, ti := range toks {
 		var err error
 		if k%2 == 0 {
@@ -281,7 +286,6 @@ func checkGroupWrite(toks []int, limit int64, dir string, st *searchStats, out s
 			return
 		}
 		recs = append(recs, consensus.TimedWALMessage{Time: tClock, Msg: tokens[ti].msg})
-		wal.Group().VerifC15CheckHeadSizeLimit()
 	}
 	verify := func(wal *consensus.BaseWAL, recs []consensus.TimedWALMessage, stage string) string {
 		lc, err := buildLogMsgs(recs, "EH0*,"+tokensName(toks))
@@ -294,6 +298,7 @@ func checkGroupWrite(toks []int, limit int64, dir string, st *searchStats, out s
 		if !bytes.Equal(all, lc.W) {
 			out("rotation-bytes", fmt.Sprintf("%s: the group's files %v concatenate to %d bytes that differ from the %d bytes written", stage, sizes, len(all), len(lc.W)))
 		}
+		checkFileFrames(lc, path, g.MaxIndex(), func(oracle, what string) { out(oracle, stage+": "+what) })
 		gr, err := g.NewReader(g.MinIndex())
 		if err != nil {
 			out("harness", "NewReader: "+err.Error())
